@@ -79,7 +79,11 @@ pub struct FaultCtx<'a> {
     pub others: &'a [Message],
 }
 
-pub const LOGICAL_KINDS: [&str; 34] = [
+pub const LOGICAL_KINDS: [&str; 38] = [
+    "dup-auth-after",
+    "dup-token-after",
+    "hdr-dup-content-type",
+    "signed-dup",
     "method-case",
     "hdr-space-tab",
     "date-reoffset",
@@ -164,10 +168,52 @@ pub fn apply_logical(kind: &'static str, m: &mut Message, cx: &FaultCtx, t: &mut
     let folded = folds(&m.logical, cx.node.cfg.fold);
     let mut note = String::new();
     let component: &'static str;
+    if kind == "dup-auth-after" {
+        // a proxy appends its own Authorization header: the first one is the one authenticated
+        if m.auth.carrier != Carrier::Header || !m.quirks.dup_authorization.is_empty() {
+            return None;
+        }
+        let v: &[u8] = [&b"Basic dXNlcjpwYXNz"[..], b"Bearer abc.def.ghi", b""][t.below(3)];
+        m.quirks.dup_authorization.push((v.to_vec(), false));
+    }
     {
         let l = &mut m.logical;
         let a = &mut m.auth;
         match kind {
+            "dup-auth-after" => {
+                component = "header";
+            }
+            "dup-token-after" => {
+                // a second security-token header after the first: the first one counts
+                let pos = l.headers.iter().position(|(n, _)| n == "x-amz-security-token")?;
+                if a.carrier != Carrier::Header {
+                    return None;
+                }
+                l.headers.insert(pos + 1, ("x-amz-security-token".into(), b"second-token".to_vec()));
+                component = "header";
+            }
+            "hdr-dup-content-type" => {
+                // a second Content-Type line on a node that does not fold forms (where the content
+                // type plays no part in authentication)
+                if cx.node.cfg.fold {
+                    return None;
+                }
+                let v: &[u8] = [&b"text/plain"[..], b"application/x-www-form-urlencoded", b"application/json; charset=utf-8"][t.below(3)];
+                let pos = t.below(l.headers.len() + 1);
+                l.headers.insert(pos, ("content-type".into(), v.to_vec()));
+                component = "header";
+            }
+            "signed-dup" => {
+                // the list names one of its headers twice
+                if a.signed.is_empty() {
+                    return None;
+                }
+                let d = a.signed[t.below(a.signed.len())].clone();
+                note = d.clone();
+                a.signed.push(d);
+                a.signed.sort();
+                component = "signed-list";
+            }
             "method" => {
                 let old = l.method.clone();
                 let mut n = gen::METHODS[t.below(gen::METHODS.len())].to_string();
@@ -517,7 +563,14 @@ pub fn apply_logical(kind: &'static str, m: &mut Message, cx: &FaultCtx, t: &mut
                 };
                 let right = refm::yyyymmdd(a.instant_ns);
                 a.scope_date = match t.below(8) {
-                    0 => "2015083".into(),
+                    0 => {
+                        if right.as_bytes()[6] == b'0' {
+                            // the right date with a one-digit day
+                            format!("{}{}", &right[..6], &right[7..])
+                        } else {
+                            "2015083".into()
+                        }
+                    }
                     1 => String::new(),
                     // the right digits in a form that is not YYYYMMDD
                     2 => format!(" {}", right),
@@ -529,7 +582,9 @@ pub fn apply_logical(kind: &'static str, m: &mut Message, cx: &FaultCtx, t: &mut
                 component = "scope";
             }
             "cred-term" => {
-                a.term = ["aws4_reques", "aws4_request2", "AWS4_REQUEST", ""][t.below(4)].to_string();
+                // (the last two: a no-break space / next-line byte after the terminator — not white
+                // space a header parser may strip)
+                a.term = ["aws4_reques", "aws4_request2", "AWS4_REQUEST", "", "aws4_request\u{a0}", "\u{85}aws4_request"][t.below(6)].to_string();
                 component = "scope";
             }
             "sig-digit" => {
@@ -690,7 +745,29 @@ pub const BAD_ESCAPES: [&[u8]; 16] = [
 pub fn corrupt_date(text: &str, t: &mut Tape) -> String {
     for _ in 0..8 {
         let mut s = text.as_bytes().to_vec();
-        match t.below(11) {
+        match t.below(13) {
+            12 => {
+                // a blank where a digit belongs (a lenient number parser skips it)
+                let digits: Vec<usize> = (0..s.len()).filter(|i| s[*i].is_ascii_digit()).collect();
+                if !digits.is_empty() {
+                    let i = digits[t.below(digits.len())];
+                    s[i] = b' ';
+                    if t.chance(2) && digits.len() > 1 {
+                        let j = digits[t.below(digits.len())];
+                        s[j] = b' ';
+                    }
+                }
+            }
+            11 => {
+                // a long malformed value with non-ASCII characters around offset 256 (what a
+                // diagnostic message might cut at)
+                let k = 236 + t.below(24);
+                s.extend(std::iter::repeat(b'x').take(k.saturating_sub(s.len())));
+                for _ in 0..(4 + t.below(6)) {
+                    s.extend("é".as_bytes());
+                }
+                s.extend(b"tail");
+            }
             10 => {
                 // a decimal digit that is not an ASCII digit (Arabic-Indic, Devanagari, fullwidth),
                 // sent as UTF-8: in the year or in any other field
@@ -964,10 +1041,19 @@ pub fn apply_defect(kind: &'static str, m: &mut Message, cx: &FaultCtx, t: &mut 
                 }
             }
             m.auth.signed.retain(|s| *s != drop);
-            if t.chance(2) {
-                // a longer name that merely begins with the required one does not satisfy it
-                m.auth.signed.push(format!("{}-v2", drop));
-                m.auth.signed.sort();
+            match t.below(4) {
+                0 | 1 => {
+                    // a longer name that merely begins with the required one does not satisfy it
+                    m.auth.signed.push(format!("{}-v2", drop));
+                    m.auth.signed.sort();
+                }
+                2 if !m.auth.signed.is_empty() => {
+                    // another name listed twice does not make up for the missing one
+                    let d = m.auth.signed[t.below(m.auth.signed.len())].clone();
+                    m.auth.signed.push(d);
+                    m.auth.signed.sort();
+                }
+                _ => {}
             }
             // re-sign: the signature over what *is* signed is correct
             let acct = cx.accounts.iter().find(|x| x.access_key == m.auth.access_key)?;
@@ -1031,7 +1117,7 @@ pub fn apply_defect(kind: &'static str, m: &mut Message, cx: &FaultCtx, t: &mut 
         "arity" => {
             let c = m.auth.credential();
             let parts: Vec<&str> = c.split('/').collect();
-            m.quirks.credential_override = Some(match t.below(10) {
+            m.quirks.credential_override = Some(match t.below(12) {
                 0 => parts[..4].join("/"),
                 1 => format!("{}/extra", c),
                 2 => parts[0].to_string(),
@@ -1044,6 +1130,9 @@ pub fn apply_defect(kind: &'static str, m: &mut Message, cx: &FaultCtx, t: &mut 
                 7 => format!("{}/{}", c, parts[4]),
                 // four elements, one of which spells a slash as an escape (taken literally)
                 8 => format!("{}%2F{}", parts[0], parts[1..].join("/")),
+                // 256 empty elements before / after a conforming credential (261 elements)
+                10 => format!("{}{}", "/".repeat(256), c),
+                11 => format!("{}{}", c, "/".repeat(256)),
                 _ => format!("{}/{}%2F{}", parts[..3].join("/"), parts[3], parts[4]),
             });
             Rule::Arity
